@@ -905,19 +905,19 @@ func c19DecisionTable(p *Prog, r *Report) {
 	const reqOS, envOS = "plugin.Requirements(param0).OS", "param1.OS"
 	const reqNet, envNet = "plugin.Requirements(param0).Network", "param1.Network"
 	names := map[string]string{
-		eq(cval("OSUnix"), reqOS):                          "reqUnix",
-		eq(cval("OSAny"), reqOS):                           "reqAnyOS",
-		eq(cval("OSLinux"), envOS):                         "envLinux",
-		eq(cval("OSMac"), envOS):                           "envMac",
-		eq(reqOS, envOS):                                   "sameOS",
-		eq(cval("NetworkAny"), reqNet):                     "reqAnyNet",
-		eq(reqNet, envNet):                                 "sameNet",
-		eq(cval("NetworkOffline"), envNet):                 "envOffline", // only selects the message
-		eq(cval("NetworkOnline"), envNet):                  "envOnline",
+		eq(cval("OSUnix"), reqOS):                   "reqUnix",
+		eq(cval("OSAny"), reqOS):                    "reqAnyOS",
+		eq(cval("OSLinux"), envOS):                  "envLinux",
+		eq(cval("OSMac"), envOS):                    "envMac",
+		eq(reqOS, envOS):                            "sameOS",
+		eq(cval("NetworkAny"), reqNet):              "reqAnyNet",
+		eq(reqNet, envNet):                          "sameNet",
+		eq(cval("NetworkOffline"), envNet):          "envOffline", // only selects the message
+		eq(cval("NetworkOnline"), envNet):           "envOnline",
 		"plugin.Requirements(param0).DirectFS":      "reqFS",
-		"param1.DirectFS":                                  "envFS",
+		"param1.DirectFS":                           "envFS",
 		"plugin.Requirements(param0).RunningSystem": "reqRun",
-		"param1.RunningSystem":                             "envRun",
+		"param1.RunningSystem":                      "envRun",
 	}
 	var vars []string
 	for _, a := range atoms {
